@@ -113,6 +113,15 @@ class Ev:
             if isinstance(v, str):
                 return v
             self.err(n, f"self.{n.attr} is not a string class constant")
+        # self.NS['ovf'] / self.NS.get('ovf'): an entry of a str->str dict class constant
+        if isinstance(n, ast.Subscript) and is_self_attr(n.value) and isinstance(n.slice, ast.Constant) \
+                and isinstance(n.slice.value, str):
+            d = self.consts.get(n.value.attr)
+            if isinstance(d, dict) and n.slice.value in d:
+                return d[n.slice.value]
+            self.err(n, f"self.{n.value.attr}[{n.slice.value!r}] is not an entry of a dict class constant")
+        if isinstance(n, ast.BinOp) and isinstance(n.op, ast.Add):
+            return self.s(n.left) + self.s(n.right)
         if isinstance(n, ast.JoinedStr):
             parts = []
             for p in n.values:
